@@ -248,7 +248,8 @@ PROPS = {
                     "harness checks that every stored checksum is xxh3 of the model's stream followed by xxh3 of the model's length table; what one glob "
                     "pattern matches (mvdan/sh expansion) is an oracle",
                     "the harness's copy of the goodRun monitor is tied to the Lean definition by comparing its verdict (g=) on every step"],
-        "assumptions": ["status: commands are `test -f`, commands only write their declared files and append to a trace; no deps, "
+        "assumptions": ["status: commands are `test -f`, commands only write their declared files and append to a trace; no deps "
+                        "(except the parent / failing-sibling pair that renders a run cancelled between check and first command), "
                         "no preconditions; sub-task calls only in the form `task: helper` where the helper has one `test -f` precondition and one command "
                         "(a call that fails before anything runs, also under --dry); sources readable; explicit whole-second mtimes; every sources pattern matches "
                         "below the task directory (no `..`), so the name hashed with a file (its path relative to t.Dir) is its root-relative "
@@ -258,7 +259,9 @@ PROPS = {
                       "distinct task names, which every Taskfile has - names that merely normalise alike have distinct state files, stateKey_inj; "
                       "tasks with equal labels, or a label equal to another task's name, have distinct checksum files, sumKey_inj: the file is a "
                       "function of the pair (task name, label) -, histories of any length made of "
-                      "successful runs, runs failing in the command loop, runs cancelled at the prompt, --dry, --status, --force, list/summary "
+                      "successful runs, runs failing in the command loop, runs cancelled at the prompt, runs cancelled by a failing sibling between the "
+                      "up-to-date check and the first command (Env.cancelled; C04_sibling_cancelled_no_entry), runs whose up-to-date check returns an error "
+                      "(an unexpandable generates entry: checkErr, C04_check_error_leaves_nothing, F8D), --dry, --status, --force, list/summary "
                       "queries and arbitrary file edits: skip implies goodRun), C04_partial_timestamp_general (the same histories for ANY "
                       "method-timestamp task, distinct task names, non-decreasing clock: skip implies goodRun or a generates file newer than the "
                       "marker vouched; C04_partial_timestamp: plain goodRun without positive generates pattern), C04_prompt_declined_no_entry / "
@@ -267,7 +270,10 @@ PROPS = {
                       "C04_timestamp_uptodate_check_pure / _checks_pure / _edit_after_checks_detected (a check ending in 'up to date' changes "
                       "nothing - no marker moved, none created -, so a source written after the last run is rebuilt however many checks lay in "
                       "between), "
-                      "C04_timestamp_skip_generates_exist, and decide-checked counterexamples to C04_full over the patched model (kill for both "
+                      "C04_timestamp_skip_generates_exist, C04_partial_src (the same conclusion in terms of the names and contents of the sources - ghost "
+                      "Attempt.src, goodRunSrc - under an explicit no-collision hypothesis; C04_constant_hash_vacuous shows why), C04_partial_queries (--status / --dry / --list --json verdicts are as sound as a run: the verdict is "
+                      "mode-independent), and decide-checked counterexamples to C04_full over the patched model (a second activation of the task in one "
+                      "invocation reported up to date while the first still runs: C04_counterexample_concurrent / C04_concurrent_root; kill for both "
                       "methods, method timestamp: never ran / failed run / generates "
                       "rewritten by others - one root: a generates file as new as the sources vouches on its own). Tie: Gen.DryWiring / "
                       "Gen.FingerOrder tables (incl. the definitions of the timestamp verdict variables, the touchMarker closure, "
@@ -290,7 +296,9 @@ PROPS = {
                         "(since TS2 touches the marker only when the timestamp check itself asks for the run) 'the status commands did not fail "
                         "before that run'"],
         "level_text": "Theorems: C05_globs (for every pattern list and file set: p ∈ Globs ⇔ the last pattern matching p is positive; result strictly "
-                      "sorted), C05_idem (both methods), C05_force, C05_missing_generates (both methods since TS1), C05_status_fails, C05_detect_full_inj (FULL "
+                      "sorted), C05_idem (both methods; also for a run whose only failures were swallowed by ignore_error: C05_ignored_failure_ok, F8C), "
+                      "C05_idem_checksum_after_force (a forced run records the fingerprint like any other, F8F), C05_match_independent (whether a path is a source does not depend on other files: a field of a pattern that cannot be stat'ed is "
+                      "skipped, F8E), C05_force, C05_missing_generates (both methods since TS1), C05_status_fails, C05_detect_full_inj (FULL "
                       "detection since fix F8B: the byte stream - names and contents back to back - together with the length table - the length of every "
                       "name and content, 8 bytes each, fed to a second hash - is an injective encoding of the list of (name, content), stream_lenTable_inj; "
                       "so for every project with injective names, i.e. every project since F8, different lists of (path, content) of the matched files give "
@@ -305,7 +313,9 @@ PROPS = {
                       "hasher, in which order); CLI histories with file operations between runs, incl. a directed stream of boundary-shift pairs (a rename "
                       "plus an edit that moves bytes between a name and the neighbouring content); the monitor 'skipped although the commands were never "
                       "attempted on the present list of (path, content)' on the real observations.",
-        "level_note": "Trusted: Lean kernel; harness; glob expansion oracle; hashes uninterpreted (FpInj explicit).",
+        "level_note": "Trusted: Lean kernel; harness; glob expansion oracle; hashes uninterpreted (FpInj explicit). Open finding: method timestamp "
+                      "notices only a source newer than the newest generates file / marker (C05_detect_timestamp_partial); removal, rename, addition with "
+                      "an old mtime and edit with restored mtime go unnoticed (C05_timestamp_*_undetected, C05-timestamp-misses-non-mtime-changes).",
     },
     "C12": {
         "lean": "Props.C12",
@@ -604,7 +614,8 @@ def _marker_vouches(f):
 def _c04(cond):
     def p(m):
         f = _mon(m, "c04")
-        return bool(f) and f.get("kind") == "skip-not-good" and cond(m, f)
+        # (a run that skips, or a query that says "up to date" — the verdict does not depend on the mode — although goodRun fails)
+        return bool(f) and f.get("kind") in ("skip-not-good", "status-not-good", "dry-skip-not-good", "list-not-good") and cond(m, f)
     return p
 
 
@@ -637,6 +648,9 @@ FINDING_PREDICATES.update({
     "C04-normalised-name-collision": _c04(_same_key),
     # (… or by a different checksum task with the same display name (label): FIXED by fix F8A, the checksum file is a function of
     # task name AND label; no predicate: such a skip is a violation again)
+    # "up to date" was said by a SECOND activation of the task while the first activation of the same invocation was still running
+    # its commands (twin=1): the fingerprint is recorded at check time — the root of the kill finding, reached without any kill
+    "C04-concurrent-activation-skipped": _c04(lambda m, f: f.get("twin") == "1" and f.get("kind") == "skip-not-good"),
     # method timestamp, last run fine, but a generates pattern matches nothing (FIXED by TS1)
     "C04-timestamp-missing-generates": _c04(lambda m, f: f.get("method") == "timestamp" and f.get("gens") == "0" and f.get("laexit") == "ok"),
     # method timestamp, the commands never ran: the generates' mtimes alone decided (no marker), or the marker a check created
@@ -657,6 +671,13 @@ FINDING_PREDICATES.update({
     "C12-dry-failed-call-removes-fingerprint": lambda m: (lambda f: bool(f) and f.get("kind") == "tree-changed" and f.get("mode") == "dry" and
                                                           f.get("exit") == "failed")(_mon(m, "c12")),
     "C05-dir-move-not-detected": _c05(lambda m, f: f.get("kind") == "change-not-detected" and f.get("samebases") == "1" and f.get("method") == "checksum"),
+    # method timestamp, skipped although the list of (path, content) of the sources differs from that of every attempt, and NO source
+    # is newer than the last attempt: a removal, a rename, an addition with an old mtime, an edit with a restored mtime — changes that
+    # leave no mtime trace, invisible to the method by design (srcnewer=1 — a source IS newer and the run was skipped — stays a violation)
+    "C05-timestamp-misses-non-mtime-changes": _c05(lambda m, f: f.get("kind") == "change-not-detected" and f.get("method") == "timestamp" and
+                                                   f.get("srcnewer") == "0" and f.get("op") in ("removal", "rename", "addition", "edit", "mixed")),
+    # (the run right after a successful --force run executed the commands again, `not-idempotent … first=force`: FIXED by F8F, the
+    # forced run records the fingerprint; no predicate: a violation again)
     # (FIXED by TS1)
     "C05-timestamp-missing-generates": _c05(lambda m, f: f.get("kind") == "missing-generates-skipped" and f.get("method") == "timestamp"),
 })
